@@ -15,6 +15,9 @@ from .api import Contract, Loop, parse_expr
 from .sym import TBool, TInt, TNone, TOpaque, TOption, TReal, TSeq, TStr, TTuple
 
 
+Ty_ = sym.Ty
+
+
 class OutOfSubset(Exception):
     pass
 
@@ -118,7 +121,7 @@ class State:
         memo = {}
 
         def cp(v):
-            if isinstance(v, (MList, MSet, CounterVal, LockVal, MDict)):
+            if isinstance(v, (MList, MSet, CounterVal, LockVal, MDict, MMatrix)):
                 if id(v) not in memo:
                     memo[id(v)] = copy.copy(v)
                 return memo[id(v)]
@@ -315,6 +318,8 @@ class Exec:
             return Val(v.ty, v.t)
         if isinstance(v, MSet):
             return MSet(v.elem, v.t)
+        if isinstance(v, MMatrix):
+            return MMatrix(v.rows, v.cols, v.t)
         return v
 
     def finish(self, st, sig, fnode):
@@ -356,7 +361,7 @@ class Exec:
                                 fnode.lineno, 'not(' + cond + ')')
             for i, e in enumerate(c.ensures):
                 g = self.spec_bool(e, st, use_old=True)
-                self.oblige(st, 'post', f'ensures[{i}] {e}', g, fnode.lineno, e)
+                self.oblige(st, 'post', f'ensures[{i}] {e}', g, fnode.lineno, e, keep=True)
         finally:
             st.env = saved_env
 
@@ -505,6 +510,11 @@ class Exec:
 
     def assign(self, target, v, st):
         if isinstance(target, ast.Name):
+            lt = self.c.locals.get(target.id) if getattr(self, 'c', None) is not None else None
+            if lt is not None and not isinstance(v, (MList, MSet, EmptyList, EmptySet)):
+                ty = lt.resolve()
+                if isinstance(ty, Ty_) and not (isinstance(v, Val) and v.ty == ty):
+                    v = self.wrap(ty, self.to_term(v, ty, st), st)
             st.env[target.id] = v
         elif isinstance(target, (ast.Tuple, ast.List)):
             items = self.unpack(v, len(target.elts), st, target)
@@ -555,6 +565,14 @@ class Exec:
             n = n.value
         base = self.eval(n, st)
         chain.reverse()
+        if isinstance(base, MMatrix) and len(chain) == 1:
+            idx = self.eval(chain[0], st)
+            if isinstance(idx, PyTuple) and len(idx.items) == 2:
+                i, j = [self.to_term(x, TInt, st) for x in idx.items]
+                self.safety(st, z3.And(0 <= i, i < base.rows, 0 <= j, j < base.cols),
+                            f'matrix index in range at line {target.lineno}', target)
+                base.set(i, j, self.to_term(v, TReal, st))
+                return
         if isinstance(base, CounterVal) and len(chain) == 1:
             k = self.to_term(self.eval(chain[0], st), base.kty, st)
             base.set(k, self.to_term(v, TInt, st))
@@ -742,6 +760,8 @@ class Exec:
                 self.ops(st).known(cur.ty, cur.t)
             elif isinstance(cur, MSet):
                 cur.t = z3.Const(sym.fresh_name('h_' + nme), cur.t.sort())
+            elif isinstance(cur, MMatrix):
+                cur.t = z3.Const(sym.fresh_name('h_' + nme), cur.t.sort())
             elif isinstance(cur, Val):
                 st.env[nme] = self.fresh_val(cur.ty, st, 'h_' + nme)
             elif isinstance(cur, PyTuple):
@@ -901,6 +921,9 @@ class Exec:
             return Val(st.out.ty, st.out.t)
         if spec and n.id in self.ms.folds:
             return self.ms.folds[n.id]
+        if n.id in self.ms.consts:
+            ty = self.ms.consts[n.id].resolve()
+            return Val(ty, z3.Const('glob_' + n.id, ty.sort()))
         if n.id in self.ms.aliases or n.id in self.ms.intrinsics:
             return Builtin(n.id)
         if n.id in BUILTINS:
@@ -1403,6 +1426,11 @@ class Exec:
             return Val(TInt, base.get(self.to_term(idx, base.kty, st)))
         if isinstance(base, MDict):
             return base.getitem(self, st, idx, n, spec)
+        if isinstance(base, MMatrix) and isinstance(idx, PyTuple) and len(idx.items) == 2:
+            i, j = [self.to_term(x, TInt, st) for x in idx.items]
+            self.safety(st, z3.And(0 <= i, i < base.rows, 0 <= j, j < base.cols),
+                        f'matrix index in range at line {getattr(n, "lineno", 0)}', n, spec)
+            return Val(TReal, base.get(i, j))
         h = self.ms.intrinsics.get('getitem')
         if h:
             r = h(self, st, [base, idx], {}, n)
@@ -1771,6 +1799,23 @@ class _Macro(ast.NodeTransformer):
         return node
 
 
+class MMatrix:
+    """mutable dense matrix of reals (symengine / numpy 2-d): rows, cols, Array (Int, Int) -> Real"""
+
+    def __init__(self, rows, cols, t):
+        self.rows, self.cols, self.t = rows, cols, t
+
+    @staticmethod
+    def zeros(rows, cols):
+        return MMatrix(rows, cols, z3.K(z3.IntSort(), z3.K(z3.IntSort(), z3.RealVal(0))))
+
+    def get(self, i, j):
+        return z3.Select(z3.Select(self.t, i), j)
+
+    def set(self, i, j, v):
+        self.t = z3.Store(self.t, i, z3.Store(z3.Select(self.t, i), j, v))
+
+
 class OptVal:
     """Python-level optional: `present` condition and the value when present (dict.get)"""
 
@@ -2108,7 +2153,17 @@ class EmptySet:
 
 
 def _b_isinstance(ex, st, args, kwargs, n, spec):
+    h = ex.ms.intrinsics.get('isinstance')
+    if h:
+        return h(ex, st, args, kwargs, n)
     raise OutOfSubset('isinstance')
+
+
+def _b_val(ex, st, args, kwargs, n, spec):
+    v = args[0]
+    if isinstance(v, Val) and isinstance(v.ty, TOption):
+        return ex.wrap(v.ty.inner, v.ty.val(v.t), st)
+    return v
 
 
 def _b_rev(ex, st, args, kwargs, n, spec):
@@ -2157,5 +2212,5 @@ BUILTINS = {
     'reversed': _b_reversed, 'list': _b_list, 'tuple': _b_tuple, 'max': _b_minmax(True),
     'min': _b_minmax(False), 'set': _b_set, 'isinstance': _b_isinstance, 'implies': _b_implies,
     'abs': _b_abs, 'int': _b_int, 'float': _b_float, 'bool': _b_bool, 'sum': _b_sum,
-    'all': None, 'any': None, 'old': None, 'rev': _b_rev,
+    'all': None, 'any': None, 'old': None, 'rev': _b_rev, 'val': _b_val,
 }
